@@ -14,6 +14,78 @@ import re
 from .. import mir, flow
 from ..common import Instance, norm_id
 
+
+def guard_is_debug(view, bb):
+    """the abort side of the guard ending block bb is a panic raised from inside `debug_assert*!`
+    (for `debug_assert!(cond)` the switch on `cond` itself carries the user's span, not the macro's)"""
+    t = view.blocks[bb]["term"]
+    if t["k"] != "switch":
+        return False
+    for sx in set(t["t"]):
+        if sx is None or not view.diverges(sx):
+            continue
+        cur, seen = sx, set()
+        while cur is not None and cur not in seen:
+            seen.add(cur)
+            tt = view.blocks[cur]["term"]
+            if any("debug_assert" in m for m in (tt.get("m") or [])):
+                return True
+            for st in view.blocks[cur]["stmts"]:
+                if any("debug_assert" in m for m in (st[4] if len(st) > 4 and isinstance(st[4], list) else [])):
+                    return True
+            nxt = [x for x in view.succ[cur] if not view.blocks[x]["cleanup"]]
+            cur = nxt[0] if len(nxt) == 1 else None
+    return False
+
+
+def _release_pairs(eng, cb, memo):
+    """pairs of parameter indices of body cb whose sizes are related by a release-mode abort guard of cb itself"""
+    from .c11 import is_debug_assert
+    if cb["id"] in memo:
+        return memo[cb["id"]]
+    memo[cb["id"]] = set()
+    view = eng.view(cb["id"])
+    dyn = {i for i in range(1, view.argc + 1) if _is_dyn(view.locals[i])}
+    out = set()
+    if len(dyn) >= 2:
+        summ, evs = eng.analyze(cb["id"], collect=True)
+        for e in evs:
+            if e.kind != "branch" or e.via or not view.abort_guard(e.bb[0]):
+                continue
+            if is_debug_assert(e.info) or guard_is_debug(view, e.bb[0]):
+                continue
+            ps = {int(l[1:].split("#")[0].split(".")[0]) for l in e.labels if l.startswith("@")} & dyn
+            for i in ps:
+                for j in ps:
+                    if i < j:
+                        out.add((i, j))
+    memo[cb["id"]] = out
+    return out
+
+
+def _callee_release_guards(facts, eng, view, dyn, _memo={}):
+    """call sites (depth 1) that hand two different heap-allocated parameters to an in-crate callee which itself aborts, in
+    release builds, on a relation between exactly those two arguments' sizes"""
+    prov = IterProv(view)
+    found = []
+    for bi, t in view.calls():
+        if view.blocks[bi]["cleanup"]:
+            continue
+        res = t["f"].get("res")
+        cb = facts.bodies.get(res) if res else None
+        if cb is None:
+            continue
+        pairs = _release_pairs(eng, cb, _memo)
+        if not pairs:
+            continue
+        roots = []
+        for a in t["args"]:
+            roots.append({r.what for r in prov.roots_of_operand(a) if r.kind == "param"} & dyn)
+        for (i, j) in pairs:
+            if i - 1 < len(roots) and j - 1 < len(roots) and roots[i - 1] and roots[j - 1] and roots[i - 1] != roots[j - 1]:
+                found.append(t["s"])
+    return found
+
 SELECT_NAMES = {"conditional_select", "ct_select", "select", "ct_assign", "ct_swap", "conditional_assign",
                 "conditional_swap", "select_word", "select_u32", "select_u64", "select_wide_word",
                 "select_usize", "select_i64", "conditional_negate", "wrapping_neg_if", "ct_select_limb"}
@@ -307,6 +379,8 @@ def run_zip(facts, report, config, eng=None, scope=None, prefix="c06.zip", count
                                 "point are %s (the shorter operand must be zero-padded)" % (
                                     what, b.get("name"), bad[1], bad[2],
                                     "never visited and the carry/borrow chain stops early" if require_eq else
+                                    "dropped from the result, while the sibling forms of the operation zero-extend"
+                                    if what == "operation" else
                                     "ignored: values differing only there are treated as equal"),
                                 bad[0], {"body": b["id"]}), config)
     report.counters["zip_call_bodies_positive_control"] = report.counters.get("zip_call_bodies_positive_control", 0) + zips_seen
@@ -438,39 +512,68 @@ def run_hash(facts, report, config, eng):
 # ---------------------------------------------------------------------------------------------
 # A predicate over two heap-allocated operands must not rely on a debug-only assertion about their lengths.
 
-def run_debug_width(facts, report, config, eng):
+SELECT_NAMES = {"ct_select", "ct_assign", "ct_swap", "conditional_select", "conditional_assign", "conditional_swap",
+                "select", "swap"}
+
+
+def run_debug_width(facts, report, config, eng, select=None, prefix="c06.dbgwidth", counter=None, reviewed=None,
+                    effect=None, len_vs_any=False):
     """`debug_assert_eq!(a.len(), b.len())` followed by a loop over one operand's length is a stated belief that is
     checked in debug builds only: in the optimized build a longer second operand is silently truncated (and a
     shorter one indexes out of bounds). Accepted: a release-mode guard relating both lengths, or none at all (then the
-    routine treats both lengths itself: zero-padding, max)."""
+    routine treats both lengths itself: zero-padding, max).
+
+    Default scope (C06): predicates and select-like routines over two heap-allocated operands. Other properties pass
+    `select` (a body filter) and a `reviewed` map key -> reason for routines that were read and found to behave in the
+    optimized build (the assertion is stricter than the code needs)."""
     from .c11 import is_debug_assert
+    reviewed = reviewed or {}
     for b in facts.fn_bodies():
         if b["kind"] == "Closure":
             continue
         view = eng.view(b["id"])
         so = b.get("sig_out") or ""
         dyn = [i for i in range(1, view.argc + 1) if _is_dyn(view.locals[i])]
-        if so not in PRED_RET or len(dyn) < 2:
+        if len(dyn) < (1 if len_vs_any else 2) or view.argc < 2:
             continue
+        if select is None:
+            if so not in PRED_RET and (b.get("name") or "") not in SELECT_NAMES:
+                continue
+            if b.get("vis") == "restricted":
+                continue        # crate-internal helper: its callers own the precondition
+        elif not select(b):
+            continue
+        if counter:
+            report.count(counter)
         summ, evs = eng.analyze(b["id"], collect=True)
         dbg, rel = [], []
         for e in evs:
             if e.kind != "branch" or e.via or not view.abort_guard(e.bb[0]):
                 continue
             ps = {int(l[1:].split("#")[0].split(".")[0]) for l in e.labels if l.startswith("@")}
-            if len(ps & set(dyn)) < 2:
+            if len_vs_any:
+                # the size of one heap-allocated operand against anything derived from another parameter
+                lens = {int(l[1:].split("#")[0]) for l in e.labels if l.startswith("@") and l.endswith("#len")}
+                if not (lens & set(dyn)) or len(ps) < 2:
+                    continue
+            elif len(ps & set(dyn)) < 2:
                 continue
-            (dbg if is_debug_assert(e.info) else rel).append(e.info.get("span"))
-        key = "c06.dbgwidth|%s" % norm_id(b["id"])
-        if dbg and not rel:
-            report.add(Instance(key, "c06.dbgwidth", "violation",
+            (dbg if (is_debug_assert(e.info) or guard_is_debug(view, e.bb[0])) else rel).append(e.info.get("span"))
+        if dbg and not rel and not len_vs_any:
+            rel += _callee_release_guards(facts, eng, view, set(dyn))
+        key = "%s|%s" % (prefix, norm_id(b["id"]))
+        if dbg and not rel and key in reviewed:
+            report.add(Instance(key, prefix, "reviewed", "reviewed: " + reviewed[key], b["span"], {"body": b["id"]}), config)
+        elif dbg and not rel:
+            report.add(Instance(key, prefix, "violation",
                                 "`%s` relates the sizes of its two operands only in a debug assertion: in the optimized build "
-                                "operands of different precision are compared limb by limb over one operand's length — the "
-                                "excess limbs of the other are ignored (or indexed out of bounds), so the answer disagrees with "
-                                "the padded comparisons (`ct_lt`, `Ord`) and with the mathematical order" % b.get("name"),
+                                "%s" % (b.get("name"), effect or
+                                        "operands of different precision are processed limb by limb over one operand's "
+                                        "length — the excess limbs of the other are ignored (or indexed out of bounds), so "
+                                        "the answer is a truncation / mixture that the debug profile would have trapped"),
                                 b["span"], {"body": b["id"]}), config)
         else:
-            report.add(Instance(key, "c06.dbgwidth", "ok",
+            report.add(Instance(key, prefix, "ok",
                                 "auto: %s" % ("a release-mode guard relates the two lengths" if rel else
                                               "no length assertion to rely on (both lengths are handled by the routine itself)"),
                                 b["span"], {"body": b["id"]}), config)
